@@ -174,7 +174,7 @@ def _roundtrip(args):
 
     out = []
     counts = {"clause:C19.b": 0, "roundtrip_refs": 0, "unknown_strategy_refs": 0}
-    all_names = ["alpha", "Beta-2", "é漢", "ghost"]
+    all_names = ["alpha", "Beta-2", "é漢", "ghost", "漢é", "Beta-2é"]
     producers = [BaseStrategy(market_filter={"markets": []}, name=n) for n in all_names]
     made = []
     for st in producers:
@@ -478,7 +478,7 @@ def run(tier):
         rep.add_violations(r["violations"])
         rep.merge_counts(r["counts"])
     rj = []
-    for own in (("alpha",), ("alpha", "Beta-2"), ("Beta-2", "é漢", "alpha"), ("é漢",)):
+    for own in (("alpha",), ("alpha", "Beta-2"), ("Beta-2", "é漢", "alpha"), ("é漢",), ("é漢", "漢é", "Beta-2é", "Beta-2")):
         for sep in ("-", "_", "~", ":", "Z", "0") if thorough else ("-", "~", "0"):
             rj.append((own, sep))
     rj.append((("é漢",), "-", ("alpha", "Beta-2")))
@@ -506,6 +506,17 @@ def run(tier):
     for r in core.pmap(_cleared_attr, [vs[i::8] for i in range(8)], chunk=1):
         rep.add_violations(r["violations"])
         rep.merge_counts(r["counts"])
+    # the strategy part of a reference identifies the strategy: distinct names of the grid give distinct hashes
+    from flumine import BaseStrategy as _BS
+
+    by_hash = {}
+    for name in nm:
+        hh = _BS(market_filter={"markets": []}, name=name).name_hash
+        rep.count("clause:C19.b", 1)
+        if hh in by_hash and by_hash[hh] != name:
+            rep.add_violations([core.v("C19.b", ("parse strategy", "hash-collision"), "strategy names %r and %r share the reference prefix %r" % (by_hash[hh][:20], name[:20], hh), dict(name=name[:40], other=by_hash[hh][:40], sep="-"))])
+            break
+        by_hash[hh] = name
     rep.need("replacement_bet_reports", "betdaq_batches", "betdaq_place_arrangements", "cleared_reports")
     rep.need("valid_seps_accepted", "invalid_seps_rejected", "orders_created", "roundtrip_refs", "unknown_strategy_refs")
     rep.states = len(nm) * (len(seps()) - 1) * 2 + len(rj)
@@ -528,6 +539,13 @@ def run(tier):
 
 def replay(rep):
     c = rep["case"]
+    if "other" in c:
+        from flumine import BaseStrategy as _BS
+
+        a = _BS(market_filter={"markets": []}, name=c["name"]).name_hash
+        b = _BS(market_filter={"markets": []}, name=c["other"]).name_hash
+        print(c["name"], a, c["other"], b)
+        return 1 if a == b and c["name"] != c["other"] else 0
     if "betdaq_place" in c:
         r = _betdaq_place_reports([(tuple(c["betdaq_place"][0]), c["betdaq_place"][1])])
     elif "cleared_sep" in c:
